@@ -119,6 +119,8 @@ pub struct RuleEntry {
     pub g: &'static str,
     pub rule: &'static str,
     pub kind: Kind,
+    /// reaches `e+` / counted repetition under implicit skipping (see build.rs)
+    pub rep_skip: bool,
     pub run: fn(&OpCtx) -> OpResult,
 }
 
@@ -212,10 +214,11 @@ pub fn finish<T: Clone + Eq + Hash + Debug + 'static>(
 
 #[macro_export]
 macro_rules! entry_silent {
-    ($g:expr, $name:expr, $Rule:ty, $($T:tt)+) => {
+    ($g:expr, $name:expr, $q:expr, $Rule:ty, $($T:tt)+) => {
         $crate::table::RuleEntry {
             g: $g,
             rule: $name,
+            rep_skip: $q,
             kind: $crate::table::Kind::Silent,
             run: |ctx| {
                 use pest_typed::RuleStruct;
@@ -230,10 +233,11 @@ macro_rules! entry_silent {
 }
 #[macro_export]
 macro_rules! entry_atomic {
-    ($g:expr, $name:expr, $Rule:ty, $($T:tt)+) => {
+    ($g:expr, $name:expr, $q:expr, $Rule:ty, $($T:tt)+) => {
         $crate::table::RuleEntry {
             g: $g,
             rule: $name,
+            rep_skip: $q,
             kind: $crate::table::Kind::Atomic,
             run: |ctx| {
                 use pest_typed::iterators::Pair;
@@ -244,10 +248,11 @@ macro_rules! entry_atomic {
 }
 #[macro_export]
 macro_rules! entry_full {
-    ($g:expr, $name:expr, $Rule:ty, $($T:tt)+) => {
+    ($g:expr, $name:expr, $q:expr, $Rule:ty, $($T:tt)+) => {
         $crate::table::RuleEntry {
             g: $g,
             rule: $name,
+            rep_skip: $q,
             kind: $crate::table::Kind::Full,
             run: |ctx| {
                 use pest_typed::iterators::Pair;
